@@ -3,11 +3,13 @@ package server
 import (
 	"errors"
 	"io"
+	"reflect"
 	"runtime"
 	"strings"
 	"sync"
 	"sync/atomic"
 	"time"
+	"unsafe"
 
 	"github.com/cbeuw/Cloak/internal/server/usermanager"
 	vk "github.com/cbeuw/Cloak/internal/verifkit"
@@ -220,4 +222,18 @@ func init() {
 		}
 		return nil
 	}
+}
+
+// vState completes a State the harness assembled field by field the way InitState would: every map field that is
+// still nil gets an empty map (the harness does not go through InitState because that starts the panel's upload
+// goroutine and resolves addresses; a State with a nil map is something InitState never produces).
+func vState(sta *State) *State {
+	v := reflect.ValueOf(sta).Elem()
+	for i := 0; i < v.NumField(); i++ {
+		f := v.Field(i)
+		if f.Kind() == reflect.Map && f.IsNil() {
+			reflect.NewAt(f.Type(), unsafe.Pointer(f.UnsafeAddr())).Elem().Set(reflect.MakeMap(f.Type()))
+		}
+	}
+	return sta
 }
